@@ -71,7 +71,7 @@ CHECKS = {
               "(b1) READ answered by a 1..n fragment series, the READ repeated 1-3 times while fragment k awaits its confirm; (b2) data unsolicited response retried after confirm timeouts while events arrive or solicited traffic uses the other buffer. "
               "distinct = (part, function/request shape, session state, disturbance, fragment number, retry number) tuples"),
         runs=[dict(check="c05", scale=10, timeout_s=900)],
-        required=["repeat_not_executed", "repeat_echo_identical", "repeat_no_reply_ok", "series_echo_identical", "series_echo_identical_frag2plus", "unsol_retry_identical", "multi_fragment_series"],
+        required=["repeat_not_executed", "repeat_echo_identical", "repeat_no_reply_ok", "series_echo_identical", "series_echo_identical_frag2plus", "unsol_retry_identical", "multi_fragment_series", "deferred_read_repeat_served_once"],
         thorough_scale=25.0,
         abnormal_exit_is_violation=True,
         assumptions=HARNESS_TRUST,
